@@ -6,8 +6,8 @@ root = '/verif'
 man = json.load(open(root + '/MANIFEST.json'))
 out = []
 out.append("#### 11.2.1 Registered checks (generated)\n")
-out.append("| id | units (package: harness functions) | quick: paths / solver queries / wall |")
-out.append("|---|---|---|")
+out.append("| id | units (package: harness functions) | quick: paths / solver queries / wall | last thorough run (thorough_runs/): paths / solver queries / wall |")
+out.append("|---|---|---|---|")
 for c in man['checks']:
     pid = c['property_id']
     s = json.load(open(f'{root}/harness/{pid}/spec.json'))
@@ -22,7 +22,12 @@ for c in man['checks']:
     if os.path.exists(ev):
         e = json.load(open(ev)); cov = e['coverage']
         stat = f"{cov.get('states', '?')} / {cov.get('solver', {}).get('queries', '?')} / {e.get('wall_s', '?')} s ({e.get('tier')})"
-    out.append(f"| {pid} | {'; '.join(desc)} | {stat} |")
+    tv = f'{root}/thorough_runs/{pid}.json'
+    tstat = ''
+    if os.path.exists(tv):
+        e = json.load(open(tv)); cov = e['coverage']
+        tstat = f"{cov.get('states', '?')} / {cov.get('solver', {}).get('queries', '?')} / {e.get('wall_s', '?')} s"
+    out.append(f"| {pid} | {'; '.join(desc)} | {stat} | {tstat} |")
 out.append("")
 out.append("Bounds and assumptions of each check are the `level_claimed.text` / `level_note` of its MANIFEST.json entry (generated from the same spec.json files).\n")
 kf = json.load(open(root + '/known_findings.json'))['findings']
